@@ -39,6 +39,7 @@ def menu(d):
     M["regs-q1-q10"] = H + "\nG(q10-2*q1, k=q1/q10) | 0\n"
     M["params-and-regs"] = H + "\nG({a}+{alpha}, q1-q0) | 0\nH({b}) | [1, 0]\n"
     M["array-params"] = H + "\nfloat array A =\n    {a}, 1\n    {alpha}, {b}\nG({a}) | 0\n"
+    M["array-arguments"] = H + "\nfloat array A =\n    1.5, 2.5\ncomplex array U =\n    1j, 2\n    3, -4j\nG(A, {a}) | 0\nH(U, k=A) | [1, 0]\nK(A) | 1\n"
     M["scalar-var"] = H + "\nfloat x = {a}*{alpha}\nG(x, {b}) | 0\n"
     M["whole-array"] = H + "\nfloat array A[2, 2] =\n    {P}\nG({a}) | 0\n"
     M["tdm"] = H + "type tdm (temporal_modes=2)\n\nfloat array p0 =\n    0.5, 1.5\nint array p1 =\n    1, 2\nG(p0, {a}+{alpha}) | 0\nH(p1) | 1\n"
@@ -57,6 +58,68 @@ def write_files(d):
     open(os.path.join(d, "sub.xbb"), "w").write("name Sub\nversion 1.0\n\nA({x}-{y}) | 8\nB({y}) | [1, 8]\n")
     open(os.path.join(d, "inner.xbb"), "w").write("name Inner\nversion 1.0\n\nRgate({a} + 2*{b}) | 0\nK(k={b}-{a}) | 0\n")
     open(os.path.join(d, "tri.xbb"), "w").write("name Tri\nversion 1.0\n\nA | 16\nB | [1, 16]\nC(0.5) | [8, 1]\n")
+
+
+def file_menu(d):
+    """scripts that exist as files and name their includes relative to themselves; every process of the seed cover
+    loads them from a different working directory, some of which hold other files under the same relative names"""
+    return collections.OrderedDict([
+        ("rel-include-same-dir", os.path.join(d, "proj", "main_rel.xbb")),
+        ("rel-include-subdir", os.path.join(d, "proj", "main_sub.xbb")),
+        ("rel-include-nested", os.path.join(d, "proj", "main_nested.xbb")),
+    ])
+
+
+def cwds(d):
+    return [os.path.join(d, "proj"), os.path.join(d, "decoy"), "/", d, os.path.join(d, "decoy", "lib")]
+
+
+def write_file_menu(d):
+    w = lambda rel, text: (os.makedirs(os.path.dirname(os.path.join(d, rel)), exist_ok=True), open(os.path.join(d, rel), "w").write(text))
+    w("proj/sub.xbb", "name Sub\nversion 1.0\n\nA({x}-{y}) | 8\nB({y}) | [1, 8]\n")
+    w("proj/lib/tri.xbb", "name Tri\nversion 1.0\n\nA | 16\nB | [1, 16]\nC(0.5) | [8, 1]\n")
+    w("proj/lib/mid.xbb", "name Mid\nversion 1.0\ninclude \"tri.xbb\"\n\nTri | [2, 0, 1]\nM | 2\n")
+    w("proj/main_rel.xbb", H + 'include "sub.xbb"\n\nSub(x=1, y=2) | [3, 4]\nG({a}+{alpha}) | 0\n')
+    w("proj/main_sub.xbb", H + 'include "lib/tri.xbb"\n\nTri | [5, 6, 7]\nTri | [2, 1, 0]\n')
+    w("proj/main_nested.xbb", H + 'include "lib/mid.xbb"\n\nMid | [4, 5, 6]\nTri | [0, 1, 2]\n')
+    # other programs under the same relative names, where a process may happen to be working
+    w("decoy/sub.xbb", "name Sub\nversion 1.0\n\nDecoy({x}) | 8\nDecoy({y}) | 1\n")
+    w("decoy/lib/tri.xbb", "name Tri\nversion 1.0\n\nDecoy | [16, 1, 8]\n")
+    w("decoy/lib/mid.xbb", "name Mid\nversion 1.0\n\nDecoy | [0, 1, 2]\n")
+    w("decoy/tri.xbb", "name Tri\nversion 1.0\n\nDecoy | [16, 1, 8]\n")
+    w("decoy/lib/sub.xbb", "name Sub\nversion 1.0\n\nDecoy({x}, {y}) | [1, 8]\n")
+
+
+def file_pipeline(path):
+    import blackbird
+    observe.reset_tables()
+    p = blackbird.load(path)
+    return {"content": repr(observe.prog_canon(p, exact=True)), "text": blackbird.dumps(p)}
+
+
+def repeat_check(text):
+    """'every run': doing the same thing a second time on the same objects gives the same text"""
+    import blackbird
+    observe.reset_tables()
+    p = blackbird.loads(text)
+    out = {}
+    t1 = blackbird.dumps(p)
+    t2 = blackbird.dumps(p)
+    out["dumps-twice-same-text"] = (t1 == t2)
+    if p.is_template():
+        try:
+            q = p(**_vals(p))
+            u1 = blackbird.dumps(q)
+            u2 = blackbird.dumps(q)
+            observe.reset_tables()
+            fresh = blackbird.dumps(blackbird.loads(text)(**_vals(p)))
+            out["instance-dumps-twice-same-text"] = (u1 == u2)
+            out["instance-text-independent-of-earlier-dumps"] = (u1 == fresh)
+        except Exception as e:  # noqa
+            out["instance"] = "EXC:" + type(e).__name__
+    observe.reset_tables()
+    out["second-load-same-text"] = (blackbird.dumps(blackbird.loads(text)) == t1)
+    return out
 
 
 def _h(x):
@@ -119,6 +182,7 @@ def pipeline(text):
     t1 = out["dumps"]["text"]
     out["gen2-load"] = stage("load", t1)
     out["gen2-dumps"] = stage("dumps", t1)
+    out["repeat"] = repeat_check(text)
     return out
 
 
@@ -166,6 +230,8 @@ sys.path.insert(0, %(verif)r)
 from bbv.props import c19
 import sympy
 M = c19.menu(%(d)r)
+FM = c19.file_menu(%(d)r)
+os.chdir(%(cwd)r)
 orders = {}
 for g in c19.GROUPS:
     orders["str:" + ",".join(g)] = list(set(g))
@@ -176,6 +242,11 @@ for k, text in M.items():
         out[k] = json.dumps(c19.pipeline(text), sort_keys=True)
     except Exception as e:
         out[k] = "EXC:" + type(e).__name__ + ":" + str(e)[:100]
+for k, path in FM.items():
+    try:
+        out["file:" + k] = json.dumps(c19.file_pipeline(path), sort_keys=True)
+    except Exception as e:
+        out["file:" + k] = "EXC:" + type(e).__name__ + ":" + str(e)[:100]
 print(json.dumps({"orders": orders, "obs": out}))
 """
 
@@ -184,7 +255,8 @@ def _seed_run(task):
     d, seed, verif = task
     env = dict(os.environ)
     env["PYTHONHASHSEED"] = str(seed)
-    r = subprocess.run([sys.executable, "-c", WORKER % {"verif": verif, "d": d}], capture_output=True, text=True, env=env)
+    cw = cwds(d)
+    r = subprocess.run([sys.executable, "-c", WORKER % {"verif": verif, "d": d, "cwd": cw[seed % len(cw)]}], capture_output=True, text=True, env=env)
     if r.returncode != 0:
         raise RuntimeError("seed worker %d failed: %s" % (seed, r.stderr[-400:]))
     return json.loads(r.stdout.strip().split("\n")[-1])
@@ -194,7 +266,9 @@ def run(ctx):
     import math
     d = os.path.join(ctx.scratch, "c19")
     write_files(d)
+    write_file_menu(d)
     M = menu(d)
+    FM = file_menu(d)
     Vs = common.Violations(keep=6)
     # (1) in-process schedule exploration
     res = pool.pmap(_explore_script, list(M.items()), chunk=1, timeout=1800)
@@ -233,14 +307,27 @@ def run(ctx):
             break
     cover_complete = all(len(seen[k]) >= need[k] for k in need)
     ref_seed = seeds[0]
-    for k in M:
+    ncw = len(cwds(d))
+    for k in list(M) + ["file:" + f for f in FM]:
         outs = collections.defaultdict(list)
         for s in seeds:
             outs[runs[s]["obs"][k]].append(s)
         if len(outs) > 1:
             (o0, s0), (o1, s1) = list(outs.items())[:2]
-            Vs.add("C19/hash-seed-dependent", {"script": k, "text": M[k], "seeds": [s0[0], s1[0]]},
-                   "script %s: PYTHONHASHSEED=%d and %d give different observations: %s" % (k, s0[0], s1[0], _first_diff(o0, o1)))
+            # which of the two things that vary between the processes does the difference follow?
+            by_cwd = all(len({runs[s]["obs"][k] for s in seeds if s % ncw == c}) <= 1 for c in range(ncw))
+            Vs.add("C19/working-directory-dependent" if by_cwd else "C19/hash-seed-dependent", {"script": k, "text": M.get(k, k), "seeds": [s0[0], s1[0]]},
+                   "script %s: processes with PYTHONHASHSEED=%d (cwd #%d) and %d (cwd #%d) give different observations: %s" % (k, s0[0], s0[0] % ncw, s1[0], s1[0] % ncw, _first_diff(o0, o1).replace(d, "<D>")))
+        if k.startswith("file:"):
+            o = runs[ref_seed]["obs"][k]
+            if o.startswith("EXC:"):
+                Vs.add("C19/pipeline-raises", {"script": k, "text": k, "seeds": [ref_seed]}, o.replace(d, "<D>"))
+            continue
+        rep = runs[ref_seed]["obs"][k]
+        if not rep.startswith("EXC:"):
+            for what, ok in json.loads(rep).get("repeat", {}).items():
+                if ok is False:
+                    Vs.add("C19/not-repeatable-within-a-run:" + what, {"script": k, "text": M[k], "seeds": [ref_seed]}, "script %s: %s is False" % (k, what))
         # agreement with the in-process (default schedule) value, stage by stage
         o = runs[ref_seed]["obs"][k]
         if not o.startswith("EXC:") and k in inproc:
@@ -254,10 +341,11 @@ def run(ctx):
     cov = {"states": len(M) * (len(STAGES) + 2), "transitions": schedules + len(seeds) * len(M), "traces_validated_against_impl": schedules + len(seeds) * len(M),
            "samples": [M[k] for k in list(M)[:3]],
            "schedules_in_process": schedules, "max_choice_points_per_stage": maxpts, "scripts": len(M), "stages": STAGES + ["gen2-load", "gen2-dumps"],
-           "hash_seeds_run": len(seeds), "seed_cover_complete": cover_complete,
+           "hash_seeds_run": len(seeds), "seed_cover_complete": cover_complete, "working_directories": ncw, "file_scripts_with_relative_includes": len(FM),
            "iteration_orders_realised": {k: "%d/%d" % (len(seen[k]), need[k]) for k in need},
            "evaluations": schedules + len(seeds) * len(M), "distinct_nontrivial": len(M),
-           "rule": "every script x stage under every combination of symbol-set iteration orders (in process), and the whole menu in one fresh interpreter per PYTHONHASHSEED of a seed cover realising all k! orders of every name group as str and as Symbol",
+           "rule": "every script x stage under every combination of symbol-set iteration orders (in process), and the whole menu in one fresh interpreter per PYTHONHASHSEED of a seed cover realising all k! orders of every name group as str and as Symbol; "
+                   "the processes rotate over 5 working directories (two of them hold other files under the relative names the file scripts include) and each also repeats dumps / instantiation / load on the same objects",
            "exhaustive": cover_complete}
     if not cover_complete:
         Vs.add("C19/seed-cover-incomplete", {"script": "-", "text": "", "seeds": seeds[:2]}, "seed cover incomplete after %d seeds: %r" % (len(seeds), cov["iteration_orders_realised"]))
@@ -271,15 +359,21 @@ def replay(case):
     d = tempfile.mkdtemp(prefix="bbv-c19r-")
     try:
         write_files(d)
+        write_file_menu(d)
         M = menu(d)
         k = case["script"]
-        if k not in M:
+        if k not in M and not k.startswith("file:"):
             return False, "n/a"
         if case.get("seeds") and len(case["seeds"]) == 2:
             verif = os.path.dirname(os.path.dirname(os.path.dirname(os.path.abspath(__file__))))
             a = _seed_run((d, case["seeds"][0], verif))["obs"][k]
             b = _seed_run((d, case["seeds"][1], verif))["obs"][k]
             return a != b, ("differ: " + _first_diff(a, b).replace(d, "<TMP>")) if a != b else "same"
+        if case.get("seeds") and len(case["seeds"]) == 1:
+            verif = os.path.dirname(os.path.dirname(os.path.dirname(os.path.abspath(__file__))))
+            a = _seed_run((d, case["seeds"][0], verif))["obs"][k]
+            bad = a.startswith("EXC:") or any(v is False for v in json.loads(a).get("repeat", {}).values())
+            return bad, a[:200].replace(d, "<TMP>") if a.startswith("EXC:") else repr(json.loads(a).get("repeat"))
         r = _explore_script((k, M[k]))
         return bool(r["violations"]), repr([v[:2] for v in r["violations"]])[:400].replace(d, "<TMP>")
     finally:
